@@ -398,3 +398,17 @@ BENIGN = [
     ("padding condition flipped", [(UT, "    if len(score_vector) < max_length:", "    if max_length > len(score_vector):")]),
     ("negative test as not >= 0", [(UT, "        if score < 0:\n            raise ValueError(\"Score vector must be non-negative.\")", "        if not score >= 0:\n            raise ValueError(\"Score vector must be non-negative.\")")]),
 ]
+
+
+def sweep(prog):
+    """Thorough tier: numeric-kind analysis over EVERY function of the package."""
+    out = []
+    n = 0
+    for f in prog.iter_functions():
+        if isinstance(f.node, ast.Lambda):
+            continue
+        n += 1
+        for e in numkind.exactness_events(prog, f):
+            out.append(f"{f.loc(e.node)}: {e.detail[:160]}")
+    out.append(f"numeric-kind analysis swept over {n} functions")
+    return out
